@@ -251,7 +251,9 @@ func runCKKSPoly(c *eng.Ctx, cfg pcfg) {
 		{"chebyshev-deg7", bignum.Chebyshev, []complex128{0.1, 0.5, -0.25, 0.125, 0.01, 0.3, 0.2, -0.1}, [2]float64{-1, 1}},
 	} {
 		v := v
-		mkPoly := func() bignum.Polynomial { return bignum.NewPolynomial(v.basis, append([]complex128(nil), v.coeffs...), v.itv) }
+		mkPoly := func() bignum.Polynomial {
+			return bignum.NewPolynomial(v.basis, append([]complex128(nil), v.coeffs...), v.itv)
+		}
 		poly := mkPoly()
 		a := e.ct(p.MaxLevel(), "", 1)
 		runPoly(t, s, "polynomial.Evaluator.Evaluate", "ckks/"+v.name, a, func() []named { return []named{{"polynomial", &poly}, {"evk", e.evk}} },
